@@ -519,28 +519,28 @@ func writeEvidence(prop string, cfg propCfg, tier string, seed uint64, t *summar
 		rule = "Each evaluation is one simulated run: a seeded plan (workload, knobs, faults) executed under a seeded schedule. A run is non-trivial when the scheduler faced at least one real choice (or a fault fired) and the oracle was reached; distinct = number of distinct event-trace hashes (scheduling decisions + harness events + file-system mutations) among non-trivial runs, counted by the machinery."
 	}
 	cov := map[string]any{
-		"evaluations":         t.Evals,
-		"distinct_nontrivial": distinct,
-		"rule":                rule,
-		"samples":             samples,
-		"simulated_runs":      t.Runs,
-		"nontrivial_runs":     t.Nontrivial,
-		"discarded_runs":      t.Discarded,
-		"runs_per_hour":       int64(rph),
-		"sim_time_s":          float64(t.SimNs) / 1e9,
-		"scheduling_steps":    t.Steps,
-		"faults_fired":        faults,
-		"probes":              probes,
-		"notes":               notes,
-		"schedule_policies":   t.Policies,
-		"sim_outcomes":        t.SimOutcomes,
-		"determinism_rechecks": map[string]int64{"reexecuted": t.DetChecked, "mismatches": t.DetMismatch},
-		"real_components":     cfg.Real,
-		"stub_components":     cfg.Stub,
-		"workers":             workers,
-		"search_budget_s":     budget.Seconds(),
+		"evaluations":               t.Evals,
+		"distinct_nontrivial":       distinct,
+		"rule":                      rule,
+		"samples":                   samples,
+		"simulated_runs":            t.Runs,
+		"nontrivial_runs":           t.Nontrivial,
+		"discarded_runs":            t.Discarded,
+		"runs_per_hour":             int64(rph),
+		"sim_time_s":                float64(t.SimNs) / 1e9,
+		"scheduling_steps":          t.Steps,
+		"faults_fired":              faults,
+		"probes":                    probes,
+		"notes":                     notes,
+		"schedule_policies":         t.Policies,
+		"sim_outcomes":              t.SimOutcomes,
+		"determinism_rechecks":      map[string]int64{"reexecuted": t.DetChecked, "mismatches": t.DetMismatch},
+		"real_components":           cfg.Real,
+		"stub_components":           cfg.Stub,
+		"workers":                   workers,
+		"search_budget_s":           budget.Seconds(),
 		"known_findings_reproduced": knownSeen,
-		"distinct_capped":     t.HashOverflow,
+		"distinct_capped":           t.HashOverflow,
 	}
 	var unreached []string
 	for k, v := range probes {
